@@ -332,7 +332,7 @@ func aliasPhase(r *vf.Run, pool []*g.Key, workers int,
 	ops := aliasOps()
 	decs := aliasDecoders()
 	r.Assume("aliasing: Raw() of a public key, PublicKeyToProto().Data, PubKeyToStdKey / PrivKeyToStdKey and UnmarshalEd25519{Public,Private}Key on the 32 / 64 byte forms share memory with the key object on the unchanged tree (as in go-libp2p); the property does not speak about them, so the harness never writes to those slices. Every other encoder output (protobuf, PEM, Raw of a private key, signatures) and every other decoder input (protobuf, PEM, 96-byte form, peer id bytes) is overwritten by the harness after the call")
-	nseq := r.N(6, 40) // sequences per key object
+	nseq := r.N(6, 10) // sequences per key object
 	r.Begin(fmt.Sprintf("aliasing: %d keys x every key-object origin x %d encode sequences with the returned slices overwritten after each call; %d decoders with the input overwritten after the call", len(pool), nseq, len(decs)))
 	g.Parallel(workers, func(w int) {
 		for ki := w; ki < len(pool); ki += workers {
